@@ -231,6 +231,65 @@ def check_regex_linear(ctx):
     ctx.setcount('regex_unbounded_groups', nloops)
 
 
+def check_token_actions(ctx):
+    """Totality of the grammar actions that decode ONE data token (string, name, variable, number, placeholder): every text of up to 5 characters over
+    {a, 1, backslash, the three quote characters, @, .} that the ordered lexer reads as exactly that token is handed to the action (interpreted by sa/interp.py,
+    with the helpers it calls); the action may only return or raise ParsingException."""
+    import itertools
+    import re as _re
+    from ..interp import Interp, Obj, Raised, Env
+    from ..grammar import prod_record
+    from ..lexmodel import master_for
+    alphabet = 'a1\\\'"`@.'
+    words = [''.join(w) for k in range(1, 6) for w in itertools.product(alphabet, repeat=k)]
+    nrows = nact = 0
+    for d in DIALECTS:
+        g = load_dialect(ctx.src, d)
+        lex = g.lexer
+        m = master_for(lex)
+        by_tok = {}
+        for p in g.productions[1:]:
+            if len(p.rhs) == 1 and p.rhs[0] in g.tokens and p.func is not None:
+                r = lex.rule(p.rhs[0])
+                if r is not None and (r.func is not None or _re.search(r'[\[\]\\*+?|()]', r.pattern)) and not _re.fullmatch(r'(\\b)?[A-Za-z_ \\s+]+(\\b)?', r.pattern):
+                    by_tok.setdefault(p.rhs[0], []).append(p)
+        for tok, prods in sorted(by_tok.items()):
+            r = lex.rule(tok)
+            rx = _re.compile(r.pattern, lex.reflags)
+            texts = [w for w in words if rx.fullmatch(w)]
+            texts = [w for w in texts if _safe_types(m, w) == [tok]]
+            for p in prods:
+                nact += 1
+                it = Interp.for_file(ctx.src, g.file, {}, {})
+                bad = None
+                try:
+                    for w in texts:
+                        nrows += 1
+                        it.steps = 0
+                        try:
+                            it.call_function(p.func, [Obj('Parser'), prod_record(p, [w])], {}, Env())
+                        except Raised as rr:
+                            if rr.exc_name != 'ParsingException' and bad is None:
+                                bad = (w, rr.exc_name)
+                except AnalysisError as e:
+                    ctx.note(f'{d}: action of `{p}` is not interpretable on token texts ({str(e)[:80]}): covered by the kind analysis only')
+                    continue
+                ctx.ob('C02.token-action-total', f'{d}:[{p}]', bad is None,
+                       f'{d}: the text `{bad[0]}` is one {tok} token, and the action of `{p}` raises {bad[1]} on it: parse_sql leaks an internal exception '
+                       f'instead of a tree or ParsingException' if bad else '', file=g.file, line=p.line, witness=f'select {bad[0]}' if bad else None)
+    ctx.setcount('token_action_rows', nrows)
+    ctx.setcount('token_actions', nact)
+    ctx.floor('token_actions', 12)
+    ctx.floor('token_action_rows', 2000)
+
+
+def _safe_types(m, w):
+    try:
+        return m.types(w)
+    except Exception:
+        return None
+
+
 def run(ctx):
     ctx.explanation = (
         'May-raise analysis of the repository-owned parse path. Grammar actions: for each of the three dialects the semantic-'
@@ -256,6 +315,7 @@ def run(ctx):
     check_closure(ctx)
     check_synth_tokens(ctx)
     check_regex_linear(ctx)
+    check_token_actions(ctx)
     if ctx.tier == 'thorough':
         check_reachability(ctx)
     ctx.floor('grammar_actions', 200 + 100 + 80)
